@@ -9,6 +9,7 @@ use std::sync::atomic::{AtomicUsize, Ordering};
 use std::sync::Mutex;
 
 static NEXT_ID: AtomicUsize = AtomicUsize::new(1);
+static INJECTED: std::sync::atomic::AtomicBool = std::sync::atomic::AtomicBool::new(false);
 static DROPS: Mutex<Vec<u32>> = Mutex::new(Vec::new());
 static HASHES: Mutex<Vec<(u8, u64)>> = Mutex::new(Vec::new());
 
@@ -287,6 +288,7 @@ fn main() {
     let mut keep: Vec<bool> = vec![];
     let mut panic_at: usize = 0;
     let mut dump_at_end = false;
+    let mut hold_refs = false;
     let mut ops: Vec<(String, u8, Vec<String>)> = vec![];
     let mut collect: Option<(usize, Vec<u8>)> = None;
     for a in std::env::args().skip(1) {
@@ -305,6 +307,7 @@ fn main() {
             "keep" => keep = v.split(',').filter(|s| !s.is_empty()).map(|s| s == "1").collect(),
             "panic_at" => panic_at = v.parse().unwrap(),
             "dump" => dump_at_end = v == "1",
+            "holdrefs" => hold_refs = v == "1",
             "collect" => {
                 let (h, ks) = v.split_once(':').unwrap();
                 collect = Some((h.parse().unwrap(), ks.split(',').filter(|s| !s.is_empty()).map(|s| s.parse().unwrap()).collect()));
@@ -351,6 +354,7 @@ fn main() {
         let mut it_ever: std::collections::BTreeSet<(u32, u64)> = std::collections::BTreeSet::new();
         let mut it_yield: Vec<(u32, u64)> = vec![];
         let mut it_done = false;
+        let mut held_refs: Vec<(usize, u64, &Val)> = vec![];
         {
             let g = m.guard();
             for k in &prefill {
@@ -402,6 +406,12 @@ fn main() {
                         if m.contains_key(&p, &g) != model.contains_key(&k) {
                             fail(format!("{}: contains_key disagrees", when));
                         }
+                        if hold_refs {
+                            // keep the reference under the long-lived guard: it must stay valid whatever happens to the entry later
+                            if let Some((_, v)) = m.get_key_value(&p, &iter_guard) {
+                                held_refs.push((v.id, v.v, v));
+                            }
+                        }
                     }
                     "remove" | "remove_entry" => {
                         let p = Key::new(k, 7777);
@@ -421,6 +431,7 @@ fn main() {
                         let f = |kk: &Key, vv: &Val| {
                             calls += 1;
                             if panic_at != 0 && calls == panic_at {
+                                INJECTED.store(true, Ordering::SeqCst);
                                 panic!("injected");
                             }
                             n_calls += 1;
@@ -452,6 +463,7 @@ fn main() {
                             calls += 1;
                             if panic_at != 0 && calls == panic_at {
                                 for r in &removed { model.remove(r); }
+                                INJECTED.store(true, Ordering::SeqCst);
                                 panic!("injected");
                             }
                             let kp = keep.get(keep_i).cloned().unwrap_or(true);
@@ -650,7 +662,8 @@ fn main() {
                     }
                 }
             }));
-            if r.is_err() && panic_at == 0 {
+            // only the operation whose closure received the injected panic may unwind
+            if r.is_err() && !INJECTED.swap(false, Ordering::SeqCst) {
                 fail(format!("{}: the operation panicked", when));
             }
             if live.is_some() && !op.starts_with("iter_") {
@@ -676,6 +689,18 @@ fn main() {
                 println!("DUMP {}", l);
             }
         }
+        // references handed out under the still-live guard: not dropped, and (under Miri) still readable
+        for (id, v, r) in &held_refs {
+            let dropped = DROPS.lock().unwrap()[*id];
+            if dropped != 0 {
+                println!("REPLAY mismatch: a value (instance {}) handed out by a lookup under a still-live guard has been dropped", id);
+                std::process::exit(0);
+            }
+            if r.v != *v {
+                fail(format!("a value handed out under a still-live guard changed under the reference ({} -> {})", v, r.v));
+            }
+        }
+        drop(held_refs);
         drop(live);
         drop(iter_guard);
         // a second thread can still write every key (no lock left behind)
